@@ -18,7 +18,7 @@ Theorem sample_prefix : forall fuel tbl w x info cs p rest,
     forall rest', sample_rec fuel tbl w x info (used ++ rest') = SOk (p, rest').
 
 Theorem program_distribution fuel tbl w start :
-  wf_at fuel tbl w start = true -> keys_ok tbl w = true ->
+  wf_at_lang fuel tbl w start = true -> keys_ok tbl w = true ->
   let D := sample_dist fuel tbl w start in
   (forall e, In e D -> forall rest,
        sample_program fuel tbl w start (e_script e ++ rest) = SOk (e_prog e, rest)) /\
@@ -523,7 +523,7 @@ Proof.
     destruct args; [congruence|reflexivity].
 Qed.
 
-(** ---- named copies of the loops of lang_at / wf_at ---- *)
+(** ---- named copies of the loops of lang_at / wf_at_lang ---- *)
 Section LSeqs.
   Variable rec : nt -> list (prog * state).
   Fixpoint lseqs (args : list argnt) (y : state) : list (list prog * state) :=
@@ -561,13 +561,13 @@ Lemma lang_at_S f tbl x :
 Proof. reflexivity. Qed.
 
 Lemma wf_at_S f tbl w x :
-  wf_at (S f) tbl w x =
+  wf_at_lang (S f) tbl w x =
   match rules_of tbl x with
   | None => false
   | Some rs =>
     weights_ok tbl w x rs &&
     forallb (fun r : drule =>
-      let '(s, (args, y)) := r in wfseq (wf_at f tbl w) (lang_at f tbl) args y) rs
+      let '(s, (args, y)) := r in wfseq (wf_at_lang f tbl w) (lang_at f tbl) args y) rs
   end.
 Proof. reflexivity. Qed.
 
@@ -631,7 +631,7 @@ Proof.
   rewrite map_app, qsum_app, qsum_cons, IH. reflexivity.
 Qed.
 
-(** ---- what wf_at and keys_ok give at one non-terminal ---- *)
+(** ---- what wf_at_lang and keys_ok give at one non-terminal ---- *)
 Lemma alookup_map_fst_nodup (ws : list (sym * Q)) : NoDup (map fst ws) ->
   map (fun s => match alookup sym_eqb s ws with Some q => q | None => 0 end) (map fst ws) = map snd ws.
 Proof.
@@ -653,10 +653,10 @@ Proof.
 Qed.
 
 Definition wf_next (f : nat) (tbl : table) (w : wtable) (rs : list drule) : Prop :=
-  forall s r, In (s, r) rs -> wfseq (wf_at f tbl w) (lang_at f tbl) (fst r) (snd r) = true.
+  forall s r, In (s, r) rs -> wfseq (wf_at_lang f tbl w) (lang_at f tbl) (fst r) (snd r) = true.
 
 Lemma wf_inv f tbl w x :
-  wf_at (S f) tbl w x = true -> keys_ok tbl w = true ->
+  wf_at_lang (S f) tbl w x = true -> keys_ok tbl w = true ->
   exists rs ws, rules_of tbl x = Some rs /\ alookup nt_eqb x w = Some ws /\
     map fst ws = map fst rs /\ NoDup (map fst ws) /\ qsum (map snd ws) == 1 /\ wf_next f tbl w rs.
 Proof.
@@ -706,7 +706,7 @@ Proof.
 Qed.
 
 Lemma sdist_sum tbl w : keys_ok tbl w = true ->
-  forall f x, wf_at f tbl w x = true -> qsum (map e_prob (sdist f tbl w x)) == 1.
+  forall f x, wf_at_lang f tbl w x = true -> qsum (map e_prob (sdist f tbl w x)) == 1.
 Proof.
   intros Hk; induction f as [|f IHf]; intros x Hwf; [discriminate|].
   destruct (wf_inv _ _ _ _ Hwf Hk) as [rs [ws [Hrs [Hws [Hkeys [Hnd [Hsum Hnext]]]]]]].
@@ -783,7 +783,7 @@ Proof.
 Qed.
 
 Lemma sdist_nodup tbl w : keys_ok tbl w = true ->
-  forall f x, wf_at f tbl w x = true -> NoDup (map e_prog (sdist f tbl w x)).
+  forall f x, wf_at_lang f tbl w x = true -> NoDup (map e_prog (sdist f tbl w x)).
 Proof.
   intros Hk; induction f as [|f IHf]; intros x Hwf; [discriminate|].
   destruct (wf_inv _ _ _ _ Hwf Hk) as [rs [ws [Hrs [Hws [Hkeys [Hnd [Hsum Hnext]]]]]]].
@@ -822,7 +822,7 @@ Proof.
 Qed.
 
 Lemma sdist_prob tbl w : keys_ok tbl w = true ->
-  forall f, prob_ok tbl w (wf_at f tbl w) (sdist f tbl w).
+  forall f, prob_ok tbl w (wf_at_lang f tbl w) (sdist f tbl w).
 Proof.
   intros Hk; induction f as [|f IHf]; intros x Hwf e He info; [discriminate|].
   destruct (wf_inv _ _ _ _ Hwf Hk) as [rs [ws [Hrs [Hws [Hkeys [Hnd [Hsum Hnext]]]]]]].
@@ -866,7 +866,7 @@ Proof.
 Qed.
 
 Lemma sdist_complete tbl w : keys_ok tbl w = true ->
-  forall f, complete_ok tbl (wf_at f tbl w) (sdist f tbl w).
+  forall f, complete_ok tbl (wf_at_lang f tbl w) (sdist f tbl w).
 Proof.
   intros Hk; induction f as [|f IHf]; intros x Hwf p info st Hn Hc; [discriminate|].
   destruct (wf_inv _ _ _ _ Hwf Hk) as [rs [ws [Hrs [Hws [Hkeys [Hnd [Hsum Hnext]]]]]]].
@@ -927,7 +927,7 @@ Qed.
 
 (** ---- TARGET 4 ---- *)
 Theorem program_distribution fuel tbl w start :
-  wf_at fuel tbl w start = true -> keys_ok tbl w = true ->
+  wf_at_lang fuel tbl w start = true -> keys_ok tbl w = true ->
   let D := sample_dist fuel tbl w start in
   (forall e, In e D -> forall rest,
        sample_program fuel tbl w start (e_script e ++ rest) = SOk (e_prog e, rest)) /\
@@ -970,7 +970,7 @@ Definition ex_w : wtable :=
   [ (ex_S0, [ (ex_f, 3 # 4); (ex_a, 1 # 4) ]);
     (ex_S1, [ (ex_a, 1 # 3); (ex_b, 2 # 3) ]) ].
 
-Example ex_hyps : wf_at 2 ex_tbl ex_w ex_S0 = true /\ keys_ok ex_tbl ex_w = true.
+Example ex_hyps : wf_at_lang 2 ex_tbl ex_w ex_S0 = true /\ keys_ok ex_tbl ex_w = true.
 Proof. vm_compute. split; reflexivity. Qed.
 
 Example ex_dist :
